@@ -696,7 +696,9 @@ class TransformToGaussian(OutputWarper):
     labels_arr = np.asarray(labels_arr, dtype=np.float64)
     labels_arr_flattened = labels_arr.flatten()
     if self.use_rank:
-      base_for_transform = np.argsort(labels_arr_flattened)
+      # Ranks of the labels (argsort alone gives positions in sort order, not
+      # ranks); equal labels share a rank.
+      base_for_transform = stats.rankdata(labels_arr_flattened, method='dense')
     else:
       base_for_transform = labels_arr_flattened
     base_for_transform_normalized = (
